@@ -10,7 +10,7 @@ const PIECES: &[&str] = &[
     "^", "'", "|", "~", "!", "?", "a", "b", "x", "f", "1", "0", "2.5", "1em", "0x1f", "1e3", "let", "set", "show",
     "if", "else", "for", "in", "while", "not", "and", "or", "import", "include", "as", "context", "return",
     "break", "continue", "none", "auto", "true", "false", "table", "grid", "columns", "é", "字", "😀", "\u{301}",
-    "\u{10ffff}", "\u{fffd}", "א", "@typstyle off", "- ", "+ ", "/ ", "= ", "http://a.b", "<l>", "@r", "#f(", "$ ",
+    "\u{10ffff}", "\u{fffd}", "א", "@typstyle off", "#table(columns: 100000000000, [a], [b])", "#grid(columns: 9223372036854775807, [a])", "- ", "+ ", "/ ", "= ", "http://a.b", "<l>", "@r", "#f(", "$ ",
     " $", "#{", "#[", "/* ", " */", "// ", "\\\n", "--", "---", "...", "->", "<=", "!=",
 ];
 
